@@ -1,0 +1,14 @@
+//go:build verif
+
+package trie
+
+// SimKeyOrder, when set, reorders the keys ForEach is about to walk. It lets a
+// simulator own the one choice this package leaves to the runtime (map
+// iteration order). Only compiled with the verif build tag.
+var SimKeyOrder func(keys []byte)
+
+func orderKeys(k []byte) {
+	if SimKeyOrder != nil {
+		SimKeyOrder(k)
+	}
+}
